@@ -234,13 +234,32 @@ impl Iterator for GreedyRepeatIterator<'_> {
     }
 }
 
+// One iteration of a reluctant repeat
+struct ReluctantIteration<'a> {
+    // the position the iteration started at
+    from: usize,
+    // the matches of the repeated operation from there
+    matches: Box<dyn Iterator<Item = usize> + 'a>,
+    // how many further iterations the current match of this iteration stands
+    // for (a match that consumed nothing can be repeated at will)
+    stands_for: usize,
+}
+
 struct ReluctantRepeatIterator<'a> {
     matcher: &'a crate::re_matcher::ReMatcher<'a>,
     operation: &'a Operation,
     min: usize,
     max: usize,
-    counter: usize,
-    position: Option<usize>,
+    // the position at which the repeat starts
+    start: usize,
+    started: bool,
+    // the iterations made so far
+    iterations: Vec<ReluctantIteration<'a>>,
+    // the sum of stands_for over all iterations
+    stand_ins: usize,
+    // the position reached by the result returned last; if the caller comes
+    // back for more, the next thing to try is one more iteration from there
+    pending: Option<usize>,
 }
 
 impl<'a> ReluctantRepeatIterator<'a> {
@@ -256,8 +275,11 @@ impl<'a> ReluctantRepeatIterator<'a> {
             operation,
             min,
             max,
-            counter: 0,
-            position: Some(position),
+            start: position,
+            started: false,
+            iterations: Vec::new(),
+            stand_ins: 0,
+            pending: None,
         }
     }
 }
@@ -265,28 +287,65 @@ impl<'a> ReluctantRepeatIterator<'a> {
 impl Iterator for ReluctantRepeatIterator<'_> {
     type Item = usize;
 
+    // Fewer iterations are preferred: a position is returned as soon as the
+    // minimum is reached. Only when the caller comes back for more is one more
+    // iteration tried from there; when that fails we backtrack into the
+    // earlier iterations.
     fn next(&mut self) -> Option<Self::Item> {
-        loop {
-            if let Some(position) = self.position {
-                let mut it = self.operation.matches_iter(self.matcher, position);
-                if let Some(position) = it.next() {
-                    self.counter += 1;
-                    if self.counter > self.max {
-                        self.position = None;
-                    } else {
-                        self.position = Some(position);
-                    }
-                }
-            } else if self.min == 0 && self.counter == 0 {
-                self.counter += 1;
-            } else {
-                self.position = None;
-            }
-            if self.counter >= self.min || self.position.is_none() {
-                break;
+        if !self.started {
+            self.started = true;
+            self.pending = Some(self.start);
+            if self.min == 0 {
+                return Some(self.start);
             }
         }
-        self.position
+        loop {
+            if let Some(position) = self.pending.take() {
+                // (iterations that merely stand in for reaching the minimum
+                // do not count towards the maximum)
+                if self.iterations.len() < self.max {
+                    self.iterations.push(ReluctantIteration {
+                        from: position,
+                        matches: self.operation.matches_iter(self.matcher, position),
+                        stands_for: 0,
+                    });
+                }
+            }
+            let top = self.iterations.last_mut()?;
+            self.stand_ins -= top.stands_for;
+            top.stands_for = 0;
+            // is the minimum reached with this iteration, and was it reached
+            // before it? (an earlier iteration that stands in for others
+            // has made up the minimum)
+            let count = self.iterations.len();
+            let reached = self.stand_ins > 0 || count >= self.min;
+            let reached_before = self.stand_ins > 0 || count > self.min;
+            let top = self.iterations.last_mut()?;
+            if let Some(position) = top.matches.next() {
+                if position != top.from {
+                    self.pending = Some(position);
+                    if reached {
+                        return Some(position);
+                    }
+                } else if reached_before {
+                    // an iteration that consumed nothing, after the minimum
+                    // was reached: this position has been offered already,
+                    // but the groups may now hold something else; no
+                    // further iteration follows
+                    return Some(position);
+                } else {
+                    // an iteration that consumed nothing can be repeated as
+                    // often as needed to reach the minimum; only an
+                    // iteration that consumes something can usefully follow
+                    top.stands_for = self.min - count;
+                    self.stand_ins += top.stands_for;
+                    self.pending = Some(position);
+                    return Some(position);
+                }
+            } else {
+                self.iterations.pop();
+            }
+        }
     }
 }
 
